@@ -257,6 +257,32 @@ fn render_doc(specs: &[ParaSpec], vs: &[Vec<usize>], layout: usize, leading_ok: 
     if layout == 2 {
         text.push('\n');
     }
+    match layout {
+        // the document does not end in a newline
+        4 => {
+            text.pop();
+        }
+        // no blank after the colon, continuation lines indented with a tab
+        5 => {
+            text = text
+                .split_inclusive('\n')
+                .map(|l| {
+                    if let Some(rest) = l.strip_prefix(' ') {
+                        format!("\t{}", rest)
+                    } else if l.starts_with('#') {
+                        l.to_string()
+                    } else {
+                        l.replacen(": ", ":", 1)
+                    }
+                })
+                .collect();
+        }
+        // blank lines in front of the first paragraph
+        6 if leading_ok => {
+            text = format!("\n\n{}", text);
+        }
+        _ => {}
+    }
     (text, model)
 }
 
@@ -363,10 +389,10 @@ impl Prop for C20 {
         "exploration"
     }
     fn rule(&self, _t: Tier) -> String {
-        "per document kind (lossy control, copyright, apt Sources / Packages / Release stanza, removal record, lossy buildinfo, DEP-3 header, APT sources list): every paragraph sequence of its shape list (source before / between / after binaries; header + Files / licence paragraphs in every order; 1-2 repositories), with every presence/value vector within k deviations (k = 1, thorough 2) of the all-mandatory and the all-present baselines over the concatenated field tables, in 4 layouts (plain; leading + field comments; two blank separators + trailing blank; comments between paragraphs); each document is parsed, compared field by field with the lossless reader's view, printed, re-parsed, compared and printed again; documented alias fields (DEP-3 From/Subject) instead of, next to, and together with a foreign field next to the canonical field; every mandatory field deleted in turn and every structurally invalid variant must be rejected; non-trivial = all".into()
+        "per document kind (lossy control, copyright, apt Sources / Packages / Release stanza, removal record, lossy buildinfo, DEP-3 header, APT sources list): every paragraph sequence of its shape list (source before / between / after binaries; header + Files / licence paragraphs in every order; 1-2 repositories), with every presence/value vector within k deviations (k = 1, thorough 2) of the all-mandatory and the all-present baselines over the concatenated field tables, in 7 layouts (plain; leading + field comments; two blank separators + trailing blank; comments between paragraphs; no final newline; no blank after the colon and tab-indented continuation lines; leading blank lines); each document is parsed, compared field by field with the lossless reader's view, printed, re-parsed, compared and printed again; documented alias fields (DEP-3 From/Subject) instead of, next to, and together with a foreign field next to the canonical field; every mandatory field deleted in turn and every structurally invalid variant must be rejected; non-trivial = all".into()
     }
     fn bounds(&self, t: Tier) -> Value {
-        json!({"kinds": kinds().iter().map(|k| json!({"id": k.id, "shapes": (k.shapes)().len(), "invalid_variants": (k.invalid)().len()})).collect::<Vec<_>>(), "k": t.pick(1, 2), "layouts": 4})
+        json!({"kinds": kinds().iter().map(|k| json!({"id": k.id, "shapes": (k.shapes)().len(), "invalid_variants": (k.invalid)().len()})).collect::<Vec<_>>(), "k": t.pick(1, 2), "layouts": 7})
     }
     fn assumptions(&self) -> Vec<String> {
         vec![
@@ -419,7 +445,7 @@ impl Prop for C20 {
                         off += l;
                     }
                     let devs = dv.iter().filter(|d| **d != 0).count();
-                    for layout in 0..4 {
+                    for layout in 0..7 {
                         if layout > 0 && devs > 1 {
                             continue;
                         }
